@@ -119,6 +119,24 @@ func checkPacket(p *codec.Packet) (fail string, classes []string) {
 		if !bytes.Equal(big[n:], sentinel(16)) {
 			return fmt.Sprintf("%s: Encode wrote beyond the %d bytes it reported", name, n), classes
 		}
+		// the same fields described through the setters in another order
+		if p.Type == codec.CONNECT && p.WillFlag() {
+			for v := 1; v < connectWillVariants; v++ {
+				mv, _, err := buildV(p, v)
+				if err != nil {
+					return fmt.Sprintf("%s: setters rejected a valid field value (call order %d): %v", name, v, err), classes
+				}
+				out := make([]byte, len(ref)+8)
+				n, err := mv.Encode(out)
+				if err != nil || mv.Len() != len(ref) || n != len(ref) || !bytes.Equal(out[:n], ref) {
+					return fmt.Sprintf("%s: built with setter call order %d (will topic %d bytes, will message %d bytes, flags %08b): Len() = %d, Encode returned (%d, %v), the MQTT encoding of the fields has %d bytes; first difference at byte %d", name, v, len(p.WillTopic), len(p.WillMessage), p.ConnectFlags, mv.Len(), n, err, len(ref), firstDiff(out[:min(n, len(out))], ref)), classes
+				}
+			}
+			classes = append(classes, "connect-will-setter-orders")
+			if len(p.WillMessage) == 0 {
+				classes = append(classes, "connect-will-message-empty")
+			}
+		}
 	}
 
 	// (b) byte level: decode the reference encoding, compare fields, re-encode both ways
@@ -156,6 +174,39 @@ func checkPacket(p *codec.Packet) (fail string, classes []string) {
 	}
 	if !bytes.Equal(out[len(ref):], sentinel(8)) {
 		return fmt.Sprintf("%s: re-encode wrote beyond the packet", name), classes
+	}
+	// the same packet with a non-minimal remaining-length encoding (1-3 padding
+	// continuation bytes): if the decoder accepts these bytes, re-encoding the
+	// decoded message must reproduce exactly these bytes
+	if _, _, hdr, ok := codec.Header(ref); ok == nil && hdr >= 2 {
+		lenBytes := ref[1:hdr]
+		for extra := 1; len(lenBytes)+extra <= 4; extra++ {
+			padded := append([]byte{ref[0]}, lenBytes[:len(lenBytes)-1]...)
+			padded = append(padded, lenBytes[len(lenBytes)-1]|0x80)
+			for i := 1; i < extra; i++ {
+				padded = append(padded, 0x80)
+			}
+			padded = append(padded, 0x00)
+			padded = exactCap(append(padded, ref[hdr:]...))
+			dp, _ := message.Type(p.Type).New()
+			n, err := dp.Decode(padded)
+			if err != nil {
+				classes = append(classes, "padded-length-rejected")
+				continue
+			}
+			classes = append(classes, "padded-length-accepted")
+			if n != len(padded) {
+				return fmt.Sprintf("%s with %d padding byte(s) in the remaining length: Decode accepted it and consumed %d of %d bytes", name, extra, n, len(padded)), classes
+			}
+			if l := dp.Len(); l != len(padded) {
+				return fmt.Sprintf("%s with %d padding byte(s) in the remaining length: Len() after Decode = %d, the accepted packet has %d bytes", name, extra, l, len(padded)), classes
+			}
+			out := sentinel(len(padded) + 8)
+			n, err = dp.Encode(out)
+			if err != nil || n != len(padded) || !bytes.Equal(out[:n], padded) {
+				return fmt.Sprintf("%s with %d padding byte(s) in the remaining length: re-encoding the decoded message does not reproduce the accepted bytes: n=%d (packet %d) err=%v first difference at %d", name, extra, n, len(padded), err, firstDiff(out[:min(n, len(padded))], padded)), classes
+			}
+		}
 	}
 	// re-serialise path: rebuild from the decoded fields through the setters
 	got := codec.Clone(fieldsOf(d))
